@@ -212,3 +212,55 @@ Theorem C03_model_is_source_cli_args_plain_arguments_unchanged :
   SrcCliArgs.src_pr_get_args Cls F O I P raw = Ok a -> Cli.pr_plain a = Cli.pr_plain raw.
 Proof. exact C03SourceArgs.src_pr_get_args_plain. Qed.
 Print Assumptions C03_model_is_source_cli_args_plain_arguments_unchanged.
+
+(* ---- the argparse option tables: get_parser() of prepare_retrospective_simulation / reveal_plate, re-read from /repo on every run by the fail-closed reader
+   harness/argparse_reader.py (Generated/SrcParser_<command>.v; a get_parser that is not a plain sequence of literal
+   parser.add_argument calls is refused and these theorems stop compiling).  What the argument records of Model/Cli.v assume of
+   the namespace parse_args() yields - the premise of the C??_model_is_source_cli_* links - is provided by the declared options:
+   Cli.declares = the attribute is the dest of EXACTLY ONE option, which stores the assumed kind of value and can be None exactly
+   where the record has an option type; Cli.dests_derived = the dest the reader computed is argparse's derivation from the flags;
+   Cli.dests_distinct = no dest and no flag is declared twice; Cli.seed_declared = --seed is an int option with a non-negative int
+   default (get_prng_from_seed_argument never sees None); Cli.coordinates_int = --n-chunks / --chunk-index / --n-chains /
+   --chain-index are int options that are never None; Cli.params_kv = every --*-param option accumulates through KVAppendAction;
+   Cli.fraction_declared = --holdout-fraction is a float option with a default in [0, 1]. ---- *)
+
+From Batchie Require Model.Cli Proofs.C18Parser Generated.SrcParser_prepare_retrospective_simulation Proofs.C18SourceParser_prepare_retrospective_simulation Generated.SrcParser_reveal_plate Proofs.C18SourceParser_reveal_plate.
+Theorem C03_source_parser_prepare_retrospective_simulation_fields :
+  forall f, In f (Cli.pr_fields ++ Cli.logging_fields) -> Cli.declares SrcParser_prepare_retrospective_simulation.src_parser_prepare_retrospective_simulation f.
+Proof. exact C18SourceParser_prepare_retrospective_simulation.parser_prepare_retrospective_simulation_fields. Qed.
+Print Assumptions C03_source_parser_prepare_retrospective_simulation_fields.
+
+Theorem C03_source_parser_prepare_retrospective_simulation_dests_derived :
+  Cli.dests_derived SrcParser_prepare_retrospective_simulation.src_parser_prepare_retrospective_simulation.
+Proof. exact C18SourceParser_prepare_retrospective_simulation.parser_prepare_retrospective_simulation_dests_derived. Qed.
+Print Assumptions C03_source_parser_prepare_retrospective_simulation_dests_derived.
+
+Theorem C03_source_parser_prepare_retrospective_simulation_dests_distinct :
+  Cli.dests_distinct SrcParser_prepare_retrospective_simulation.src_parser_prepare_retrospective_simulation.
+Proof. exact C18SourceParser_prepare_retrospective_simulation.parser_prepare_retrospective_simulation_dests_distinct. Qed.
+Print Assumptions C03_source_parser_prepare_retrospective_simulation_dests_distinct.
+
+Theorem C03_source_parser_prepare_retrospective_simulation_seed :
+  Cli.seed_declared SrcParser_prepare_retrospective_simulation.src_parser_prepare_retrospective_simulation.
+Proof. exact C18SourceParser_prepare_retrospective_simulation.parser_prepare_retrospective_simulation_seed. Qed.
+Print Assumptions C03_source_parser_prepare_retrospective_simulation_seed.
+
+Theorem C03_source_parser_prepare_retrospective_simulation_params :
+  Cli.params_kv SrcParser_prepare_retrospective_simulation.src_parser_prepare_retrospective_simulation.
+Proof. exact C18SourceParser_prepare_retrospective_simulation.parser_prepare_retrospective_simulation_params. Qed.
+Print Assumptions C03_source_parser_prepare_retrospective_simulation_params.
+
+Theorem C03_source_parser_reveal_plate_fields :
+  forall f, In f (Cli.rp_fields ++ Cli.logging_fields) -> Cli.declares SrcParser_reveal_plate.src_parser_reveal_plate f.
+Proof. exact C18SourceParser_reveal_plate.parser_reveal_plate_fields. Qed.
+Print Assumptions C03_source_parser_reveal_plate_fields.
+
+Theorem C03_source_parser_reveal_plate_dests_derived :
+  Cli.dests_derived SrcParser_reveal_plate.src_parser_reveal_plate.
+Proof. exact C18SourceParser_reveal_plate.parser_reveal_plate_dests_derived. Qed.
+Print Assumptions C03_source_parser_reveal_plate_dests_derived.
+
+Theorem C03_source_parser_reveal_plate_dests_distinct :
+  Cli.dests_distinct SrcParser_reveal_plate.src_parser_reveal_plate.
+Proof. exact C18SourceParser_reveal_plate.parser_reveal_plate_dests_distinct. Qed.
+Print Assumptions C03_source_parser_reveal_plate_dests_distinct.
